@@ -198,7 +198,58 @@ var constRegexes = []string{`"("`, `"["`, `"*"`, `"a{2,1}"`, `"(()"`, `"[z-a]"`,
 var constRegexUses = []string{"y = $0 ~ R", "y = $0 !~ R", "y = $1 ~ R", "y = x ~ R", "y = \"abc\" ~ R", "if ($0 ~ R) n++", "if (0) print $0 ~ R", "$0 ~ R { n++ }", "y = match($0, R)", "y = match(\"s\", R)", "n = split($0, arr, R)", "sub(R, \"x\")", "gsub(R, \"x\", y)",
 	"FS = R", "RS = R", "y = (x ~ R) ? 1 : 2", "while ($0 ~ R) break", "y = R ~ R", "y = !($0 ~ R)", "print $0 ~ R", "y = $(R)", "y = arr[R]", "printf R", "y = sprintf(R, 1)", "y = index(R, R)", "y = substr(R, 1e30)", "y = $1e30", "y = $-1", "$(-1e30) = 1", "y = arr[1e999]", "y = -R", "y = R + 0", "y = 1 / 0", "y = 1 % 0", "y = 2 ^ 1e9", "y = \"a\" < 1"}
 
+// call chains: a value handed down through functions that only forward their parameter; what the last one does
+// with it, and what the top passes, may or may not agree.  Whatever the resolver concludes after however many
+// passes, ParseProgram returns a program or an error.
+func genChain(t *rapid.T) string {
+	n := rapid.IntRange(1, 6).Draw(t, "chainlen")
+	var sb strings.Builder
+	order := rapid.Permutation(func() []int {
+		l := make([]int, n)
+		for i := range l {
+			l[i] = i
+		}
+		return l
+	}()).Draw(t, "chainorder")
+	defs := make([]string, n)
+	for i := 0; i < n; i++ {
+		var body string
+		if i == n-1 {
+			body = rapid.SampledFrom([]string{"", "p[1] = 1", "p = 1", "return length(p)", "return p + 1", "if (0) c0(1)", "if (0) c" + fmt.Sprint(i) + "(1)", "for (k in p) n++", "split(\"a b\", p)", "c0(p)", "return p[1] p", "delete p", "q[1] = p"}).Draw(t, "last")
+		} else {
+			body = rapid.SampledFrom([]string{"c%d(p)", "return c%d(p)", "c%d(p); c%d(p)", "if (q) c%d(p); else c%d(q)", "c%d(p, q)", "x = 1 + c%d(p)", "c%d(p); if (0) c0(2)"}).Draw(t, "fwd")
+			body = strings.ReplaceAll(body, "%d", fmt.Sprint(i+1))
+		}
+		defs[i] = fmt.Sprintf("function c%d(p, q) { %s }\n", i, body)
+	}
+	top := func() string {
+		return rapid.SampledFrom([]string{"c0(x)", "x[1]; c0(x)", "x = 1; c0(x)", "c0(1)", "c0(\"s\")", "c0(x); x[1] = 1", "c0(x); x = 2", "c0(x, x)", "c0(y); c0(x); y[1]; x = 1", "c0(x + 1)", "c0(x[1])", "c0(NR)", "c0(ENVIRON)", "c0()", "z = c0(x) c0(y)"}).Draw(t, "top")
+	}
+	blocks := []string{"BEGIN { " + top() + " }\n"}
+	if rapid.Bool().Draw(t, "twotops") {
+		blocks = append(blocks, rapid.SampledFrom([]string{"BEGIN", "END", "NR == 1", ""}).Draw(t, "tplace")+" { "+top()+" }\n")
+	}
+	// definitions and top-level blocks in a drawn order
+	where := rapid.IntRange(0, 2).Draw(t, "topwhere")
+	if where == 0 {
+		sb.WriteString(strings.Join(blocks, ""))
+	}
+	for k, i := range order {
+		sb.WriteString(defs[i])
+		if where == 1 && k == 0 {
+			sb.WriteString(strings.Join(blocks, ""))
+		}
+	}
+	if where == 2 {
+		sb.WriteString(strings.Join(blocks, ""))
+	}
+	return sb.String()
+}
+
 func genSemantic(t *rapid.T) string {
+	if rapid.IntRange(0, 3).Draw(t, "chainfam") == 0 {
+		return genChain(t)
+	}
 	if rapid.IntRange(0, 2).Draw(t, "constfam") == 0 {
 		var sb strings.Builder
 		for i := rapid.IntRange(1, 3).Draw(t, "nconst"); i > 0; i-- {
@@ -256,13 +307,13 @@ func genSemantic(t *rapid.T) string {
 
 func genSrc(t *rapid.T) (string, string) {
 	switch k := rapid.IntRange(0, 109).Draw(t, "kind"); {
-	case k >= 97:
+	case k >= 95:
 		return genSemantic(t), "semantic"
 	case k < 40:
 		return genTokenSoup(t), "soup"
 	case k < 85:
 		return genMutated(t), "mutated"
-	case k < 95:
+	case k < 93:
 		return genRaw(t), "raw"
 	default:
 		return genBig(t), "big"
